@@ -21,6 +21,8 @@ TEXT = {
  "C13": T("Live reconfigure requests (ok / failing open / cancelled / concurrent / during stop) on a flowing default-engine pipeline; oracles: each record processed once per node, in order, generations never go back, failed generation never used, open/teardown pairing per generation, running guard kept, calls return; the v2 engine must refuse.", "3 C13"),
  "C14": T("Generated sequences of management calls (valid and invalid arguments, running and file-provisioned pipelines); each sequence is run fault-free and then once per (call, store operation) with exactly that store operation failing - a complete enumeration of single store failures per sequence; after every call: failed call => memory and store unchanged, memory == what a restarted server loads, references consistent both ways, guarded entities untouched.", "3 C14",
           tech="sequential simulation over the simulated store with exhaustive single-fault enumeration per generated call sequence; restart-equivalence oracle"),
+ "C15": T("Chains of 2-5 configurations drawn from a grammar (1-3 sources/destinations, 0-4 processors per parent with conditions and workers, DLQ block, Unicode settings; edits: field changes, insertions, deletions, reorders) are imported through Import and through Plan+ApplyPlan; per chain every single store-operation failure and every processor-plugin failure of every import is enumerated; oracles: export == imported config and plan empty after success, re-import writes nothing, failure retains config/store/memory, positions of surviving connectors kept.", "3 C15",
+          tech="sequential simulation with exhaustive single-fault enumeration per generated configuration chain; export/plan/re-import oracles"),
  "C17": T("Every call of generated sequences (arbitrary-byte positions incl. invalid UTF-8 / empty / nil / 70 KB, Unicode settings and names, every status, DLQ blocks, reference orderings) is followed by a restart of all services on the durable map; canonical views must be equal, running/recovering pipelines must load as system-stopped; the repository's golden documents and a pre-0.4.1 connector document must load and stay stable. Only durable-state restart and value generation are used: no schedule or fault influences this property.", "3 C17",
           tech="durable-state-only restart inside the simulator + generated stored values; canonical re-encoding comparison"),
  "C08": T("Scripted result kinds per record and stage (pass/modify/filter/error/split/short), chains and fan-out; every destination write must be a leaf the scripted chain produces; acks only via C01's rule.", "3 C08"),
@@ -31,7 +33,7 @@ NOT_APPLICABLE = [
  {"property_id": "C20", "reason": "pure function of an error tree; no concurrency, time or I/O for a simulator to control (DESIGN.md section 5)"},
 ]
 # properties claimed in DESIGN.md whose checks are not registered yet are listed here until they are
-PENDING = ["C15", "C16", "C19"]
+PENDING = ["C16", "C19"]
 import sys, os
 sys.path.insert(0, os.path.dirname(__file__))
 from propdefs import PROPS as _P
